@@ -32,26 +32,30 @@ theorem divLoop_eq (v : ℚ) (n : ℕ) (acc : ℚ) : divLoop v n acc = acc / v ^
 
 /-- positive exponent: the `n`-th power -/
 theorem powValue_pos (v : ℚ) (n : ℕ) (hn : 1 ≤ n) : powValue v (n : ℤ) = v ^ n := by
-  have h : (n : ℤ) ≥ 0 := Int.natCast_nonneg n
-  rw [powValue, if_pos h, mulLoop_eq, Int.toNat_natCast]
+  have h0 : ¬ ((n : ℤ) = 0) := by omega
+  have h : (n : ℤ) > 0 := by omega
+  rw [powValue, if_neg h0, if_pos h, mulLoop_eq, Int.toNat_natCast]
   obtain ⟨m, rfl⟩ : ∃ m, n = m + 1 := ⟨n - 1, by omega⟩
   rw [Nat.add_sub_cancel, pow_succ]; ring
 
 /-- negative exponent: one over the `n`-th power -/
 theorem powValue_neg (v : ℚ) (n : ℕ) (hn : 1 ≤ n) : powValue v (-(n : ℤ)) = 1 / v ^ n := by
-  have h : ¬ (-(n : ℤ) ≥ 0) := by omega
-  rw [powValue, if_neg h, divLoop_eq, neg_neg, Int.toNat_natCast, lit_one]
+  have h0 : ¬ (-(n : ℤ) = 0) := by omega
+  have h : ¬ (-(n : ℤ) > 0) := by omega
+  rw [powValue, if_neg h0, if_neg h, divLoop_eq, neg_neg, Int.toNat_natCast, lit_one]
 
-/-- exponent 0: the value is kept (NOT 1) — `i = 1; while (i < 0)` does nothing -/
-theorem powValue_zero (v : ℚ) : powValue v 0 = v := by
-  simp [powValue, mulLoop]
+/-- exponent 0: the dimensionless number 1 -/
+theorem powValue_zero (v : ℚ) : powValue v 0 = 1 := by
+  simp [powValue, lit_one]
 
-/-- for every non-zero integer exponent the value is the integer power -/
-theorem powValue_zpow (v : ℚ) (p : ℤ) (hp : p ≠ 0) : powValue v p = v ^ p := by
-  rcases Int.lt_or_gt_of_ne hp with h | h
+/-- for every integer exponent the value is the integer power -/
+theorem powValue_zpow (v : ℚ) (p : ℤ) : powValue v p = v ^ p := by
+  rcases Int.lt_trichotomy p 0 with h | h | h
   · obtain ⟨n, rfl⟩ : ∃ n : ℕ, p = -(n : ℤ) := ⟨p.natAbs, by omega⟩
     have hn : 1 ≤ n := by omega
     rw [powValue_neg v n hn, zpow_neg, zpow_natCast, one_div]
+  · subst h
+    rw [powValue_zero, zpow_zero]
   · obtain ⟨n, rfl⟩ : ∃ n : ℕ, p = (n : ℤ) := ⟨p.toNat, by omega⟩
     have hn : 1 ≤ n := by omega
     rw [powValue_pos v n hn, zpow_natCast]
@@ -95,10 +99,7 @@ def nameIsOne (n : Str) : Bool :=
   | none => false
 
 theorem powValue_one (p : ℤ) : Unit.powValue (1 : ℚ) p = 1 := by
-  unfold Unit.powValue
-  split
-  · rw [Unit.mulLoop_eq]; simp
-  · rw [Unit.divLoop_eq, lit_one]; simp
+  rw [Unit.powValue_zpow, one_zpow]
 
 theorem evalTok_one (t : Tok) (h : tokIsOne t = true) :
     ∃ u : Unit ℚ, evalTok t = some u ∧ u.value = 1 := by
